@@ -229,10 +229,13 @@ func (e *Env) FieldAddr(t types.Type, fi int, ref *smt.Term) *smt.Term {
 		e.T.faCount++
 		r := smt.BVar("r!fa", smt.Int)
 		app := smt.App(name, smt.Int, r)
+		d.AddFunc("rbase", smt.Int, smt.Int)
 		d.AddAxiom("embedded object reference "+name, smt.Forall([]*smt.Term{r}, smt.And(
 			smt.Eq(smt.App(inv, smt.Int, app), r),
 			smt.Eq(smt.App("fatag", smt.Int, app), smt.IntLit(int64(e.T.faCount))),
-			smt.ILt(app, smt.IntLit(0))), app))
+			smt.ILt(app, smt.IntLit(0)),
+			// the allocation an embedded object belongs to is that of its parent
+			smt.Eq(smt.App("rbase", smt.Int, app), smt.App("rbase", smt.Int, r))), app))
 	}
 	return smt.App(name, smt.Int, ref)
 }
